@@ -33,6 +33,7 @@ type c03Case struct {
 	HeadWS [2]string     `json:"headws"` // whitespace before / after the header clause
 	Junk   string        `json:"junk"`   // text in the extending child (must be discarded)
 	Segs   []c03Seg      `json:"segs"`
+	Reader string        `json:"reader,omitempty"` // how the loader's readers deliver the source: "" | data-eof | one-byte | half
 }
 
 const ws4 = " \t\r\n"
@@ -88,6 +89,8 @@ func genWS(t *rapid.T, label string, min, max int) string {
 // right comment markers.
 func genText(t *rapid.T, d jetrun.Delims, label string) string {
 	atoms := []string{"a", "b", "Z", "0", " ", " ", "\t", "\r", "\n", "\n", "{", "}", "*", "-", "[", "]", "<", ">", "%", "#", "@", "$", "!", "é", "日", "«", "»", "\"", "'", "&", ".", "\x00", "\xff",
+		// white space in the Unicode sense that no trim marker removes
+		"\v", "\f", "\u0085", "\u00a0", "\u2028", "\u3000",
 		d.R(), d.CR(), " -", "- ", " -" + d.R(), d.L()[:1], d.CL()[:1], d.R()[:1]}
 	n := rapid.IntRange(1, 8).Draw(t, label+"N")
 	var b strings.Builder
@@ -129,6 +132,7 @@ func sanitizeText(text, next string, d jetrun.Delims) string {
 
 func genC03(t *rapid.T) c03Case {
 	c := c03Case{Delims: genDelims(t)}
+	c.Reader = rapid.SampledFrom([]string{"", "", "", "", "data-eof", "one-byte", "half"}).Draw(t, "reader")
 	switch rapid.IntRange(0, 5).Draw(t, "header") {
 	case 4:
 		c.Header = "import"
@@ -345,12 +349,29 @@ func (c c03Case) expected() string {
 }
 
 func judgeC03(c c03Case) (v core.Verdict) {
+	if c.Header == "import" && len(c.Segs) > 0 && c.Segs[0].Kind == "text" {
+		// "whitespace-only text next to import clauses is dropped": whether that covers text made of \v, \f,
+		// NBSP, ... (white space to unicode.IsSpace, not to the trim markers) is left open by the statement
+		if full := c.HeadWS[1] + c.Segs[0].Text; strings.Trim(full, ws4) != "" && strings.TrimSpace(full) == "" {
+			v.Discard = "unicode-whitespace-only-text-next-to-import"
+			return
+		}
+	}
 	files, entry := c.files()
 	want := c.expected()
 	if c.Header == "import" && (len(c.Segs) == 0 || c.Segs[0].Kind != "text") && false {
 		_ = want
 	}
-	o := jetrun.Render(files, entry, nil, nil, c.Delims.Options()...)
+	var o jetrun.Outcome
+	if c.Reader == "" {
+		o = jetrun.Render(files, entry, nil, nil, c.Delims.Options()...)
+	} else {
+		v.Label("reader:" + c.Reader)
+		t, og := jetrun.Get(jetrun.NewStyledSet(files, c.Reader, c.Delims.Options()...), entry)
+		if o = og; !og.Failed() {
+			o = jetrun.Exec(t, nil, nil)
+		}
+	}
 	nAction, nComment, wsTrim, lone := 0, 0, false, false
 	for i, s := range c.Segs {
 		switch s.Kind {
@@ -394,7 +415,7 @@ func judgeC03(c c03Case) (v core.Verdict) {
 
 func TestC03(t *testing.T) {
 	core.Run(t, "C03",
-		"segments (text over whitespace/lone-delimiter/multibyte alphabet, marker actions with independent trim markers, comments) under 13 fixed + random delimiter configurations, optional import/extends header; non-trivial = >=2 non-text segments and a text with whitespace next to a trim marker or a lone delimiter byte; distinct by case hash",
+		"segments (text over whitespace/lone-delimiter/multibyte/Unicode-white-space alphabet, marker actions with independent trim markers, comments) under 13 fixed + random delimiter configurations, optional import/extends header, loader readers delivering the source whole / with data+EOF in one Read / byte by byte / in halves; non-trivial = >=2 non-text segments and a text with whitespace next to a trim marker or a lone delimiter byte; distinct by case hash",
 		genC03, judgeC03)
 }
 
